@@ -414,20 +414,110 @@ static void case_cmn(unsigned char *b, size_t n)
     free(s);
 }
 
+/* canonical summary of an FSG built from a rule: sizes, well-formedness of every arc, and a hash of
+ * the sorted (from, to, word) triples (log-probabilities left out: weights are renormalised in place) */
+typedef struct { int32 from, to; const char *w; } arc3_t;
+static int cmp_arc3(const void *a, const void *b)
+{
+    const arc3_t *x = (const arc3_t *)a, *y = (const arc3_t *)b;
+    if (x->from != y->from) return x->from < y->from ? -1 : 1;
+    if (x->to != y->to) return x->to < y->to ? -1 : 1;
+    return strcmp(x->w, y->w);
+}
+static void summarize_fsg(const char *tag, const char *rname, fsg_model_t *f)
+{
+    int i, n = 0, cap = 64, wf = 1;
+    uint64_t h = 1469598103934665603ULL;
+    arc3_t *A;
+    printf("%s %s ", cur_id, tag); hexs(rname);
+    if (f == NULL) { printf(" null\n"); return; }
+    A = (arc3_t *)malloc(sizeof(*A) * cap);
+    if (!(f->start_state >= 0 && f->start_state < f->n_state && f->final_state >= 0 && f->final_state < f->n_state)) wf = 0;
+    for (i = 0; i < f->n_state; i++) {
+        fsg_arciter_t *it;
+        for (it = fsg_model_arcs(f, i); it; it = fsg_arciter_next(it)) {
+            fsg_link_t *l = fsg_arciter_get(it);
+            if (n == cap) { cap *= 2; A = (arc3_t *)realloc(A, sizeof(*A) * cap); }
+            if (l->from_state != i || l->to_state < 0 || l->to_state >= f->n_state || l->wid < -1 || l->wid >= f->n_word) wf = 0;
+            A[n].from = l->from_state; A[n].to = l->to_state;
+            A[n].w = (l->wid >= 0 && l->wid < f->n_word) ? f->vocab[l->wid] : "";
+            n++;
+        }
+    }
+    qsort(A, n, sizeof(*A), cmp_arc3);
+    for (i = 0; i < n; i++) {
+        const char *c;
+        h = (h ^ (uint64_t)(uint32)A[i].from) * 1099511628211ULL;
+        h = (h ^ (uint64_t)(uint32)A[i].to) * 1099511628211ULL;
+        for (c = A[i].w; *c; c++) h = (h ^ (unsigned char)*c) * 1099511628211ULL;
+        h = (h ^ 0xff) * 1099511628211ULL;
+    }
+    printf(" ok %d %d %d wf=%d %016llx\n", f->n_state, f->n_word, n, wf, (unsigned long long)h);
+    free(A);
+}
+
+#define MAX_RULES_BUILT 12
+
 static void case_jsgf(unsigned char *b, size_t n)
 {
     char *s = cstr(b, n);
     jsgf_t *j = jsgf_parse_string(s, NULL);
+    float32 lw = (float32)config_float(D->config, "lw");
     if (j == NULL) printf("%s rej\n", cur_id);
     else {
         jsgf_rule_iter_t *it;
-        int nr = 0, npub = 0;
+        jsgf_rule_t *rules[MAX_RULES_BUILT];
+        char *names[MAX_RULES_BUILT];
+        int nr = 0, npub = 0, k = 0, pass, i, used = 0;
         for (it = jsgf_rule_iter(j); it; it = jsgf_rule_iter_next(it)) {
+            jsgf_rule_t *r = jsgf_rule_iter_rule(it);
             nr++;
-            if (jsgf_rule_public(jsgf_rule_iter_rule(it))) npub++;
+            if (jsgf_rule_public(r)) npub++;
+            if (k < MAX_RULES_BUILT) { rules[k] = r; names[k] = strdup(jsgf_rule_name(r)); k++; }
         }
         printf("%s ok rules=%d public=%d\n", cur_id, nr, npub);
+        /* the grammar object stays usable whatever was built from it before: every rule in turn,
+         * twice (so that each one is also built after every refused one), from the SAME jsgf_t */
+        for (pass = 0; pass < 2; pass++)
+            for (i = 0; i < k; i++) {
+                int idx = pass ? k - 1 - i : i;
+                fsg_model_t *f = jsgf_build_fsg_raw(j, rules[idx], D->lmath, lw);
+                summarize_fsg(pass ? "b2" : "b1", names[idx], f);
+                fsg_model_free(f);
+            }
+        /* complete build (with closure) + use on the decoder for a few rules */
+        for (i = 0; i < k && used < 2 && nr <= MAX_RULES_BUILT; i++) {
+            fsg_model_t *f = jsgf_build_fsg(j, rules[i], D->lmath, lw);
+            int w, known = f != NULL;
+            for (w = 0; f && w < f->n_word; w++)
+                if (dict_wordid(D->dict, f->vocab[w]) == BAD_S3WID) known = 0;
+            if (f && known && f->n_state <= 200) {
+                int rc = decoder_set_fsg(D, f);   /* consumes f */
+                printf("%s ruleuse ", cur_id); hexs(names[i]); printf(" %d\n", rc);
+                if (rc == 0) run_utt(0);
+                drop_search();
+                used++;
+            } else
+                fsg_model_free(f);
+        }
         jsgf_grammar_free(j);
+        /* reference: the same rule built from a freshly parsed grammar object */
+        for (i = 0; i < k; i++) {
+            jsgf_t *j2 = jsgf_parse_string(s, NULL);
+            fsg_model_t *f = NULL;
+            if (j2) {
+                for (it = jsgf_rule_iter(j2); it; it = jsgf_rule_iter_next(it))
+                    if (!strcmp(jsgf_rule_name(jsgf_rule_iter_rule(it)), names[i])) {
+                        f = jsgf_build_fsg_raw(j2, jsgf_rule_iter_rule(it), D->lmath, lw);
+                        jsgf_rule_iter_free(it);
+                        break;
+                    }
+            }
+            summarize_fsg("rf", names[i], f);
+            fsg_model_free(f);
+            if (j2) jsgf_grammar_free(j2);
+            free(names[i]);
+        }
     }
     {
         int rc = decoder_set_jsgf_string(D, s);
